@@ -66,15 +66,17 @@ pub proof fn lemma_usize_roundtrip(n: usize)
 
 pub trait VxFromStr: Sized {
     type VxErr;
-    /// FromStr::from_str as a function of the text; None = error
-    spec fn parse_spec(s: Seq<char>) -> Option<Self>;
+    /// FromStr::from_str as a relation between the text and an accepted value ...
+    spec fn parse_rel(s: Seq<char>, v: Self) -> bool;
+    /// ... and the texts it rejects
+    spec fn parse_err(s: Seq<char>) -> bool;
     fn vx_from_str(s: &str) -> (r: Result<Self, Self::VxErr>)
-        ensures match Self::parse_spec(s@) { Some(v) => r is Ok && r->Ok_0 == v, None => r is Err };
+        ensures match r { Ok(v) => Self::parse_rel(s@, v) && !Self::parse_err(s@), Err(_) => Self::parse_err(s@) };
 }
 
 /// R-method-map target of `.parse()`
 pub fn vx_parse<T: VxFromStr>(s: &str) -> (r: Result<T, T::VxErr>)
-    ensures match T::parse_spec(s@) { Some(v) => r is Ok && r->Ok_0 == v, None => r is Err }
+    ensures match r { Ok(v) => T::parse_rel(s@, v) && !T::parse_err(s@), Err(_) => T::parse_err(s@) }
 {
     T::vx_from_str(s)
 }
@@ -87,9 +89,8 @@ impl VxDisplay for VxParseIntError {
 
 impl VxFromStr for usize {
     type VxErr = VxParseIntError;
-    open spec fn parse_spec(s: Seq<char>) -> Option<usize> {
-        match parse_usize_spec(s) { Some(n) => Some(n as usize), None => None }
-    }
+    open spec fn parse_rel(s: Seq<char>, v: usize) -> bool { parse_usize_spec(s) == Some(v as nat) }
+    open spec fn parse_err(s: Seq<char>) -> bool { parse_usize_spec(s) is None }
     #[verifier::external_body]
     fn vx_from_str(s: &str) -> (r: Result<usize, VxParseIntError>) { unimplemented!() }
 }
@@ -100,9 +101,13 @@ impl VxDisplay for usize {
 
 impl VxFromStr for u8 {
     type VxErr = VxParseIntError;
-    open spec fn parse_spec(s: Seq<char>) -> Option<u8> {
+    open spec fn parse_rel(s: Seq<char>, v: u8) -> bool {
         let t = if s.len() > 0 && s[0] == '+' { s.skip(1) } else { s };
-        if t.len() > 0 && all_digits(t) && dec_value(t) <= u8::MAX { Some(dec_value(t) as u8) } else { None }
+        t.len() > 0 && all_digits(t) && dec_value(t) <= u8::MAX && v as nat == dec_value(t)
+    }
+    open spec fn parse_err(s: Seq<char>) -> bool {
+        let t = if s.len() > 0 && s[0] == '+' { s.skip(1) } else { s };
+        !(t.len() > 0 && all_digits(t) && dec_value(t) <= u8::MAX)
     }
     #[verifier::external_body]
     fn vx_from_str(s: &str) -> (r: Result<u8, VxParseIntError>) { unimplemented!() }
@@ -113,9 +118,13 @@ impl VxDisplay for u8 {
 
 impl VxFromStr for u16 {
     type VxErr = VxParseIntError;
-    open spec fn parse_spec(s: Seq<char>) -> Option<u16> {
+    open spec fn parse_rel(s: Seq<char>, v: u16) -> bool {
         let t = if s.len() > 0 && s[0] == '+' { s.skip(1) } else { s };
-        if t.len() > 0 && all_digits(t) && dec_value(t) <= u16::MAX { Some(dec_value(t) as u16) } else { None }
+        t.len() > 0 && all_digits(t) && dec_value(t) <= u16::MAX && v as nat == dec_value(t)
+    }
+    open spec fn parse_err(s: Seq<char>) -> bool {
+        let t = if s.len() > 0 && s[0] == '+' { s.skip(1) } else { s };
+        !(t.len() > 0 && all_digits(t) && dec_value(t) <= u16::MAX)
     }
     #[verifier::external_body]
     fn vx_from_str(s: &str) -> (r: Result<u16, VxParseIntError>) { unimplemented!() }
@@ -126,9 +135,13 @@ impl VxDisplay for u16 {
 
 impl VxFromStr for u32 {
     type VxErr = VxParseIntError;
-    open spec fn parse_spec(s: Seq<char>) -> Option<u32> {
+    open spec fn parse_rel(s: Seq<char>, v: u32) -> bool {
         let t = if s.len() > 0 && s[0] == '+' { s.skip(1) } else { s };
-        if t.len() > 0 && all_digits(t) && dec_value(t) <= u32::MAX { Some(dec_value(t) as u32) } else { None }
+        t.len() > 0 && all_digits(t) && dec_value(t) <= u32::MAX && v as nat == dec_value(t)
+    }
+    open spec fn parse_err(s: Seq<char>) -> bool {
+        let t = if s.len() > 0 && s[0] == '+' { s.skip(1) } else { s };
+        !(t.len() > 0 && all_digits(t) && dec_value(t) <= u32::MAX)
     }
     #[verifier::external_body]
     fn vx_from_str(s: &str) -> (r: Result<u32, VxParseIntError>) { unimplemented!() }
@@ -139,9 +152,13 @@ impl VxDisplay for u32 {
 
 impl VxFromStr for u64 {
     type VxErr = VxParseIntError;
-    open spec fn parse_spec(s: Seq<char>) -> Option<u64> {
+    open spec fn parse_rel(s: Seq<char>, v: u64) -> bool {
         let t = if s.len() > 0 && s[0] == '+' { s.skip(1) } else { s };
-        if t.len() > 0 && all_digits(t) && dec_value(t) <= u64::MAX { Some(dec_value(t) as u64) } else { None }
+        t.len() > 0 && all_digits(t) && dec_value(t) <= u64::MAX && v as nat == dec_value(t)
+    }
+    open spec fn parse_err(s: Seq<char>) -> bool {
+        let t = if s.len() > 0 && s[0] == '+' { s.skip(1) } else { s };
+        !(t.len() > 0 && all_digits(t) && dec_value(t) <= u64::MAX)
     }
     #[verifier::external_body]
     fn vx_from_str(s: &str) -> (r: Result<u64, VxParseIntError>) { unimplemented!() }
